@@ -5,8 +5,8 @@
 package rtsp
 
 import (
-	"errors"
 	"bufio"
+	"errors"
 	"fmt"
 	"io"
 	"sort"
@@ -158,6 +158,25 @@ func (h Header) clone() Header {
 
 // 头部总大小上限
 const maxHeaderBytes = 256 * 1024
+
+// Body 大小上限(sdp 等文本，远小于此值)
+const maxBodyLength = 1 << 20
+
+// readBody 读取 Content-Length 指定长度的 Body；
+// 长度超限或 Body 不完整返回错误，而不是预先分配任意大小的缓冲或返回被截断的 Body。
+func readBody(r *bufio.Reader, cl int) (string, error) {
+	if cl > maxBodyLength {
+		return "", fmt.Errorf("Content-Length %d over the maximum %d", cl, maxBodyLength)
+	}
+	body := make([]byte, cl)
+	if _, err := io.ReadFull(r, body); err != nil {
+		if err == io.EOF {
+			err = io.ErrUnexpectedEOF
+		}
+		return "", err
+	}
+	return string(body), nil
+}
 
 // ReadHeader 根据规范的格式从 r 中读取 Header
 func ReadHeader(r *bufio.Reader) (Header, error) {
